@@ -266,6 +266,7 @@ pub struct Diff {
     /// one piece): the per-character differential must not be the only path that is watched
     pub vt2: avt::Vt,
     limited: bool,
+    resized: bool,
     call_props: Vec<&'static str>,
     pub vt: avt::Vt,
     pub rp: avt::parser::Parser,
@@ -276,7 +277,7 @@ pub struct Diff {
 
 impl Diff {
     pub fn new(h: &History) -> Diff {
-        Diff { deferred: None, vt2: h.build(), limited: h.limit.is_some(), call_props: Vec::new(), vt: h.build(), rp: avt::parser::Parser::new(), pm: PModel::new(), m: Model::new(h.cols, h.rows), since_full: 0 }
+        Diff { deferred: None, vt2: h.build(), limited: h.limit.is_some(), resized: false, call_props: Vec::new(), vt: h.build(), rp: avt::parser::Parser::new(), pm: PModel::new(), m: Model::new(h.cols, h.rows), since_full: 0 }
     }
 
     fn diverge(props: Vec<&'static str>, what: String) -> End {
@@ -445,10 +446,20 @@ impl Diff {
 impl Diff {
     /// the call-level twin: same call through feed_str on the second terminal, compared with the model
     fn twin_call(&mut self, call: &Call, what: &str) -> End {
-        if self.limited {
+        if let Call::Resize(..) = call {
+            self.resized = true;
+        }
+        if self.limited && self.resized {
             // under a finite limit feed() (never trims) and feed_str (trims per call) legitimately
-            // retain different amounts of scrollback, which a later taller resize makes visible:
-            // the twin is only comparable under unlimited scrollback (C12/C14 cover finite limits)
+            // retain different amounts of scrollback, which a taller resize makes visible: from the
+            // first resize on the twin is only comparable under unlimited scrollback (C12/C14 cover
+            // finite limits across resizes)
+            match call {
+                Call::FeedStr(s) => drop(self.vt2.feed_str(s)),
+                Call::Feed(s) => s.chars().for_each(|ch| self.vt2.feed(ch)),
+                Call::Resize(c, r) => drop(self.vt2.resize(*c, *r)),
+            }
+            self.call_props.clear();
             return End::Ok;
         }
         match call {
